@@ -1,5 +1,8 @@
 pub mod powertrain;
+pub mod slts;
 pub mod speed_profile;
+pub mod train_props;
+pub mod train_run;
 
 use crate::engine::Property;
 
@@ -7,9 +10,14 @@ pub fn registry() -> Vec<&'static dyn Property> {
     vec![
         &powertrain::C01,
         &speed_profile::C02,
+        &slts::C03,
+        &train_props::C07,
         &powertrain::C08,
         &powertrain::C09,
         &powertrain::C10,
+        &train_props::C11,
+        &train_props::C12,
         &speed_profile::C13,
+        &train_props::C14,
     ]
 }
